@@ -19,7 +19,7 @@ class LambdaTokenTranslator(AbstractTranslator):
         condition_value = literal
 
         if literal:
-            parsed_literal = re.findall(r'^\'(>=|<=|<>|>|<|=)((\d+)((\.)(\d+))?(e(-?\d+))?)?\'$', literal)
+            parsed_literal = re.findall(r'^\'(>=|<=|<>|>|<|=)((-?\d+)((\.)(\d+))?(e(-?\d+))?)?\'$', literal)
             if parsed_literal:
                 parsed_literal = parsed_literal[0]
                 if parsed_literal[0]:
